@@ -63,10 +63,9 @@ func (g *schemaGenerator) generateRootType() error {
 		return nil
 	}
 
+	// A root that was already generated (reached through a $ref before) is found by its schema;
+	// a name that is merely taken by another type gets a suffix instead of being dropped.
 	rootTypeName := g.getRootTypeName(g.schema, g.schemaFileName)
-	if _, ok := g.output.declsByName[rootTypeName]; ok {
-		return nil
-	}
 
 	_, err := g.generateDeclaredType((*schemas.Type)(g.schema.ObjectAsType), newNameScope(rootTypeName))
 
